@@ -50,6 +50,7 @@ Proof. exact Apply2P.failed_rename_plan_changes_nothing. Qed.
    stage left (the content edits themselves are the recorded finding content_edits_not_rolled_back) *)
 Theorem C04_rename_fault_rolled_back_to_content_stage : forall inj p t s1,
   first_conflict t (ap_renames p) = None ->
+  first_unreadable t (edits_by_file (ap_hunks p)) = None ->
   content_stage inj (edits_by_file (ap_hunks p)) {| s_fs := t; s_n := 0; s_trace := [] |} = inl s1 ->
   r_ok (apply_core inj p t) = false ->
   (forall a b, In (a, b) (stage_steps (sort_renames (ap_renames p)) []) -> case_only a b = false) ->
